@@ -198,7 +198,12 @@ func runCycles(cfg *hx.RunCfg) error {
 	if err != nil {
 		return err
 	}
-	served, err := runCycleCase(cfg.Seed, "served", loop(6), cycles, true, rec)
+	// the served case waits 650 ms per cycle for the udp proxy's work connection: 15 cycles in the quick tier
+	servedCycles := cycles
+	if cfg.Tier != "thorough" && cfg.Extra == "" {
+		servedCycles = 15
+	}
+	served, err := runCycleCase(cfg.Seed, "served", loop(6), servedCycles, true, rec)
 	if err != nil {
 		return err
 	}
